@@ -16,7 +16,12 @@ Line-protocol front end of the C02 model (requests after the leading `C02` field
      locals  := `LocalsCount` of every function literal, in the resolver's order, joined by ","
   slots <count> <op…>  the slot allocator of block tables on its own: ops o (block begins) | c (block
      ends) | d:<name>; reply: ok TAB <slots claimed by the new variables, in order> TAB <final count>
-  acts <mode> <op…>    the abstract activation machine: ops m:d1,d2… | c:N | s:N | r
+  acts <mode> <op…>    the abstract activation machine: ops m:d1,d2… | c:N | s:N | r | a (abort)
+  frames <op…>         the frame machine (frame slots, inline storage, heap slices) and the variable
+     machine (one variable per activation and slot) on the same operations: c:0|1 (call, 1 = more than
+     8 locals) | r (return) | a (error exit) | m:<idx>:<back> (MakeCell) | sf:<idx>:<v> | lf:<idx> |
+     sF:<cell>:<v> | lF:<cell>; reply: ok TAB <loads of the frame machine> TAB <loads of the variable
+     machine> TAB <cells as addr:activation,…>   or   stuck TAB <frames|-> TAB <vars|->
 -/
 namespace Risor.C02
 
@@ -120,6 +125,7 @@ def showGroups (lits : List Lit) : String :=
 def parseOp (s : String) : Option AOp :=
   match s.splitOn ":" with
   | ["r"] => some .ret
+  | ["a"] => some .abort
   | ["c", n] => n.toNat?.map AOp.call
   | ["s", n] => n.toNat?.map AOp.spawn
   | ["m"] => some (.makeClosure [])
@@ -132,6 +138,21 @@ def parseBOp (s : String) : Option BOp :=
   | ["c"] => some .closeB
   | ["d", x] => some (.decl x)
   | _ => none
+
+def parseFOp (s : String) : Option FOp :=
+  match s.splitOn ":" with
+  | ["c", w] => some (.call (w == "1"))
+  | ["r"] => some .ret
+  | ["a"] => some .abort
+  | ["m", i, b] => do pure (.makeCell (← i.toNat?) (← b.toNat?))
+  | ["sf", i, v] => do pure (.storeFast (← i.toNat?) (← v.toInt?))
+  | ["lf", i] => i.toNat?.map FOp.loadFast
+  | ["sF", c, v] => do pure (.storeFree (← c.toNat?) (← v.toInt?))
+  | ["lF", c] => c.toNat?.map FOp.loadFree
+  | _ => none
+
+def showInts (xs : List Int) : String :=
+  if xs.isEmpty then "-" else ",".intercalate (xs.map toString)
 
 def showAState (s : AState) : String :=
   let clo (c : AClo) : String :=
@@ -164,6 +185,15 @@ def handle : List String → String
       match AState.run m AState.init ops with
       | some s => "ok\t" ++ showAState s
       | none => "stuck"
+    | none => "error\tbad-op"
+  | "frames" :: ops =>
+    match ops.mapM parseFOp with
+    | some ops =>
+      match FM.run FM.init ops, VarM.run VarM.init ops with
+      | some s, some t =>
+        "ok\t" ++ showInts s.out.reverse ++ "\t" ++ showInts t.out.reverse ++ "\t" ++
+          (if s.cells.isEmpty then "-" else ",".intercalate (s.cells.map fun c => toString c.addr ++ ":" ++ toString c.act))
+      | a, b => "stuck\t" ++ (if a.isSome then "-" else "frames") ++ "\t" ++ (if b.isSome then "-" else "vars")
     | none => "error\tbad-op"
   | _ => "error\tunknown-request"
 
